@@ -122,7 +122,7 @@ def gen_len(rng):
 
 def gen_list(rng, mode=None):
     n = gen_len(rng)
-    mode = mode if mode is not None else rng.below(8)
+    mode = mode if mode is not None else rng.below(9)
     if mode == 0:        # small integers with many duplicates
         return L(*[N(float(rng.below(5))) for _ in range(n)])
     if mode == 1:        # numbers, comparable (no NaN), with -0/0 and near-equal values
@@ -138,7 +138,33 @@ def gen_list(rng, mode=None):
         return L(*[gen_atom(rng) for _ in range(n)])
     if mode == 6:        # booleans / nulls
         return L(*[rng.choice([B(True), B(False), NULL, B(True)]) for _ in range(n)])
+    if mode == 8:        # members of a few .== classes written differently, long enough for a bucketed / hashed path
+        return gen_class_list(rng)
     return L(*[gen_value(rng, 1) for _ in range(min(n, 12))])
+
+
+def gen_class_list(rng):
+    """a list of 20..80 elements drawn from a handful of .== classes, each class with several SPELLINGS that are
+    equal but not identical: records with permuted key order (also nested), 0 and -0, a list holding either, equal
+    strings (every literal is its own heap cell).  Round 4, seed C14-7: `unique` bucketed by a fingerprint that
+    depended on record key order for lists of 32 or more elements; the generator's long lists held no records."""
+    classes = []
+    for i in range(2 + rng.below(4)):
+        a, b_ = N(float(i)), S("t%d" % (i % 2))
+        inner = [R(("p", a), ("q", b_)), R(("q", b_), ("p", a))]
+        kind = rng.below(5)
+        if kind == 0:
+            classes.append([R(("id", a), ("tag", b_)), R(("tag", b_), ("id", a))])
+        elif kind == 1:
+            classes.append([R(("k", inner[0]), ("z", N(0.0))), R(("z", N(-0.0)), ("k", inner[1])), R(("k", inner[1]), ("z", N(0.0)))])
+        elif kind == 2:
+            classes.append([L(inner[0], N(0.0)), L(inner[1], N(-0.0))])
+        elif kind == 3:
+            classes.append([N(0.0), N(-0.0)] if i == 0 else [N(float(i)), N(float(i))])
+        else:
+            classes.append([S("s%d" % i), S("s%d" % i)])
+    n = rng.choice([20, 31, 32, 33, 40, 63, 64, 65, 80])
+    return L(*[rng.choice(rng.choice(classes)) for _ in range(n)])
 
 
 def gen_index(rng, n):
